@@ -12,6 +12,11 @@ run(ctx):
      story restored by `SAVE k; LOADNEW k` is driven in lock-step with the original through the rest
      of the history, then all globals (GETVAR), all knot visit counts (VISITS) and the save itself
      (SHOWSAVE) are compared; re-saving right after the load must reproduce the save.
+  6. counters probe: most programs get an extra function `verif_probe` that prints TURNS_SINCE(-> k) and the
+     visit count of EVERY knot / stitch (so all of them carry both count flags).  It is called (EVAL) at
+     random positions of the histories and in the tail, on both sides of the lock-step, so everything
+     the format has to carry about "visitCounts" / "turnIndices" is observed after a load — a save that
+     is self-consistent (re-save identical) but lossy is still seen.
 Every disagreement of 5 is a violation with program + history as replay and a stable key.
 """
 import json, os, re, hashlib
@@ -209,6 +214,24 @@ another # t3
 """,
 }
 
+# regression (seeded change C02/write_int_dictionary): a knot whose latest visit is in turn 0, saved, TURNS_SINCE later
+HAND["turns-since-first-turn"] = """-> hall
+=== hall ===
+You are in the hall. {TURNS()}
++ [Go down to the cellar] -> cellar
++ [Stay] -> wait
+=== cellar ===
+It is dark down here.
+-> landing
+=== landing ===
++ [Wait] -> wait
++ [Again] -> cellar
+* [Leave] -> END
+=== wait ===
+Turns since: cellar {TURNS_SINCE(-> cellar)} landing {TURNS_SINCE(-> landing)} hall {TURNS_SINCE(-> hall)} / {TURNS()}
+-> landing
+"""
+
 FLOW_PROGRAM = """VAR shared = 0
 -> main
 === main
@@ -269,6 +292,74 @@ LIST_STORY = {
 }
 
 
+# ---------------------------------------------------------------- counters probe
+PROBE = "verif_probe"
+
+
+def ink_places(src):
+    """knots and stitches (no functions, no parameters) of an ink source, in order"""
+    out, knot = [], None
+    for l in src.splitlines():
+        m = re.match(r"\s*={2,}\s*(function\s+)?(\w+)\s*(\([^)]*\))?\s*=*\s*$", l)
+        if m:
+            knot = None
+            if not m.group(1) and not (m.group(3) or "").strip("() "):
+                knot = m.group(2)
+                out.append(knot)
+            continue
+        m = re.match(r"\s*=\s*(\w+)\s*(\([^)]*\))?\s*$", l)
+        if m and knot and not (m.group(2) or "").strip("() "):
+            out.append(knot + "." + m.group(1))
+    return out
+
+
+def add_probe_ink(src, places=None):
+    """source + a function printing TURNS_SINCE and the visit count of every knot / stitch: all of them get
+    both count flags, and EVAL verif_probe observes what a save has to carry about them"""
+    places = (places if places is not None else ink_places(src))[:16]
+    if not places or PROBE in src:
+        return None
+    line = ",".join("{TURNS_SINCE(-> %s)}" % k for k in places) + "|" + ",".join("{%s}" % k for k in places)
+    return src.rstrip("\n") + "\n=== function " + PROBE + "() ===\n" + line + "\n"
+
+
+def add_probe_json(sj):
+    """the same for a compiled story: count flags (visits | turns) on every knot, plus the probe container
+    exactly as the compiler emits it for the function above"""
+    sj = json.loads(json.dumps(sj))
+    root = sj.get("root")
+    if not isinstance(root, list) or not root or not isinstance(root[-1], dict):
+        return None
+    named = root[-1]
+    knots = [k for k in named if k not in ("#f", "#n", "global decl") and isinstance(named[k], list) and named[k]
+             and re.match(r"^\w+$", k)]
+    if not knots or PROBE in named:
+        return None
+    knots = sorted(knots)[:16]
+    for k in knots:
+        c = named[k]
+        if isinstance(c[-1], dict):
+            c[-1]["#f"] = int(c[-1].get("#f", 0)) | 3
+        elif c[-1] is None:
+            c[-1] = {"#f": 3}
+        else:
+            return None
+    body = []
+    for i, k in enumerate(knots):
+        body += (["^,"] if i else []) + ["ev", {"^->": k}, "turns", "out", "/ev"]
+    body.append("^|")
+    for i, k in enumerate(knots):
+        body += (["^,"] if i else []) + ["ev", {"CNT?": k}, "out", "/ev"]
+    named[PROBE] = body + ["\n", {"#f": 1}]
+    return sj
+
+
+def probe_parts(res):
+    """'ok(none,"a,b|c,d\\u{a}")' -> ('a,b', 'c,d')"""
+    m = re.match(r'ok\(none,"([^"|]*)\|([^"|]*?)(?:\\u\{a\})?"\)', res or "")
+    return (m.group(1), m.group(2)) if m else None
+
+
 def story_probes(sj):
     """(global names, knot names) of a compiled story"""
     gl, knots = [], []
@@ -290,6 +381,29 @@ def story_probes(sj):
     return sorted(set(gl)), sorted(knots)
 
 
+def with_probe(p):
+    """the program with the counters probe added (same id + '+probe'), or None"""
+    q = {k: v for k, v in p.items() if not k.startswith("_")}
+    try:
+        if "ink" in p:
+            src = add_probe_ink(p["ink"])
+            if src is None:
+                return None
+            q["ink"] = src
+        else:
+            sj = json.loads(p["story"]) if "story" in p else json.load(open(p["story_file"], encoding="utf-8-sig"))
+            sj = add_probe_json(sj)
+            if sj is None:
+                return None
+            q.pop("story_file", None)
+            q["story"] = json.dumps(sj)
+    except Exception:
+        return None
+    q["id"] = p["id"] + "+probe"
+    q["probe"] = True
+    return q
+
+
 def programs(ctx):
     progs = []
     for name, src in HAND.items():
@@ -306,13 +420,26 @@ def programs(ctx):
         import gen_ink
         n = 40 if ctx.quick() else 600
         for i in range(n):
-            src, ast = gen_ink.gen_program(ctx.rng)
+            # every third program: TURNS_SINCE / read counts / TURNS as frequent as variables in its expressions
+            kw = dict(turns_since=2.0, read_count=2.0, turns=1.0) if i % 3 == 2 else {}
+            src, ast = gen_ink.gen_program(ctx.rng, **kw)
             progs.append(dict(id=f"gen:{i}", ink=src, weight=2))
         ctx.coverage["gen_ink"] = n
     except Exception as e:      # generator absent or broken: hand-written + corpus only
         ctx.notes.append(f"tools/gen_ink.py not usable ({type(e).__name__}: {e}); corpus and hand-written programs only")
         ctx.coverage["gen_ink"] = 0
-    return progs
+    # counters probe: hand-written programs in both forms, generated ones mostly with, corpus stories half
+    out, nprobe = [], 0
+    for p in progs:
+        kind = p["id"].split(":")[0]
+        q = with_probe(p) if (kind == "hand" or ctx.rng.random() < (0.75 if kind == "gen" else 0.5)) else None
+        if q is None or kind == "hand":
+            out.append(p)
+        if q is not None:
+            out.append(q)
+            nprobe += 1
+    ctx.coverage["programs_with_counters_probe"] = nprobe
+    return out
 
 
 def base_case(p, cid, script, **kw):
@@ -422,6 +549,11 @@ def grow_histories(ctx, exe, progs, per_prog, max_len):
             if not cand:
                 h["alive"] = False
                 continue
+            if h["prog"].get("probe") and h.get("nprobe", 0) < 3 and ctx.rng.random() < 0.2:
+                # observe all turn indices / visit counts here (both sides of the lock-step do)
+                h["nprobe"] = h.get("nprobe", 0) + 1
+                h["ops"].append(["EVAL", PROBE])
+                continue
             h["ops"].append(ctx.rng.choice(cand))
     out = []
     seen = set()
@@ -440,6 +572,15 @@ def grow_histories(ctx, exe, progs, per_prog, max_len):
 def classify(prog, hist, b, before_dump, first):
     """stable key of a lock-step disagreement"""
     dump = before_dump or ""
+    if first.get("op") == ["EVAL", PROBE] or first.get("probe") == ["EVAL", PROBE]:
+        # the counters probe is the first thing that differs: which half of it?
+        a, c = probe_parts(first.get("original")), probe_parts(first.get("restored"))
+        if a and c and a[0] != c[0] and a[1] == c[1]:
+            return "turn-indices-not-restored"
+        if a and c and a[0] == c[0] and a[1] != c[1]:
+            return "visit-counts-not-restored"
+        if a and c:
+            return "turn-indices-and-visit-counts-not-restored"
     cur_flow = re.search(r'"currentFlowName":"([^"]*)"', dump)
     multi = dump.count('"callstack":{"threadCounter"') > 1
     if first.get("where") == "load-result" and re.search(r":null[,}]", dump):
@@ -469,7 +610,9 @@ def oracle(ctx, exe, hists, all_boundaries=True):
     for hi, h in enumerate(hists):
         p, H = h["prog"], h["ops"]
         gl, kn = story_probes(p.get("_sj") or {})
-        tail = [["GETVAR", g] for g in gl[:12]] + [["VISITS", k] for k in kn[:12]] + [["SHOWSAVE"]]
+        kn = [k for k in kn if k != PROBE]
+        tail = [["GETVAR", g] for g in gl[:12]] + [["VISITS", k] for k in kn[:12]] \
+            + [["SHOWSAVE"]] + ([["EVAL", PROBE], ["SHOWSAVE"]] if p.get("probe") else [])
         h["tail"] = tail
         cases.append(base_case(p, f"o{hi}", [x for op in H for x in (["SHOWSAVE"], op)] + tail))
         meta.append((hi, None))
@@ -498,7 +641,8 @@ def oracle(ctx, exe, hists, all_boundaries=True):
         def o_state(i):        # line describing the state at boundary i (after i ops)
             return ol[0] if i == 0 else ol[2 * i]
         def o_dump(i):         # SHOWSAVE taken at boundary i
-            return split_line(ol[1 + 2 * i])[0] if i < n else split_line(ol[-1])[0]
+            # (at the end of the history: the first SHOWSAVE of the tail — the probe after it moves the state on)
+            return split_line(ol[1 + 2 * i])[0] if i < n else split_line(ol[1 + 2 * n + tail.index(["SHOWSAVE"])])[0]
         for b in range(n + 1):
             rb = byid.get(f"o{hi}b{b}")
             if rb is None:
@@ -622,7 +766,7 @@ def run(ctx):
     import time
     t0 = time.time()
     progs = programs(ctx)
-    hists = grow_histories(ctx, exe, progs, per_prog=2 if ctx.quick() else 4, max_len=12 if ctx.quick() else 18)
+    hists = grow_histories(ctx, exe, progs, per_prog=2 if ctx.quick() else 4, max_len=14 if ctx.quick() else 20)
     t1 = time.time()
     fails, ostat = oracle(ctx, exe, hists, all_boundaries=True)
     t2 = time.time()
@@ -649,7 +793,9 @@ def run(ctx):
              "reference-compiled corpus stories, tools/gen_ink.py programs; histories grown op by op on the "
              "implementation (CONT while it can continue, else a random CHOOSE; SWITCH / SWITCH_DEFAULT / PATH for the "
              "flow program); a save point after every op of every history; lock-step through the rest of the history, "
-             "then GETVAR of all globals, VISITS of all knots, SHOWSAVE",
+             "then GETVAR of all globals, VISITS of all knots, SHOWSAVE; counters probe: a function printing TURNS_SINCE "
+             "and the visit count of every knot / stitch is added to most programs (count flags on all of them) and "
+             "called (EVAL) at random positions of the history and in the tail",
         programs=len(progs), histories=len(hists), history_ops=ops_total,
         oracle=ostat, correspondence=cstat, traces_validated_against_impl=cstat.get("agree", 0),
         correspondence_mismatches=len(mism),
@@ -665,15 +811,18 @@ def run(ctx):
             d = f["first_difference"]
             ctx.violation(f"{key}: program {f['program']} save after {f['save_after_ops']} ops of {json.dumps(f['history'])[:200]}: "
                           f"{json.dumps(d, ensure_ascii=False)[:400]}", f, key=key)
-    elif not pr["ok"]:
+    if not pr["ok"] and not fails:
         ctx.violation("theorem no longer checks: " + pr["failed"][:400],
                       dict(theorem_file="theories/Props/C02.v", error=pr["failed"]), no_input=True)
-    elif mism:
+    real = [m for m in mism if m.get("status") == "mismatch"]      # model-error etc.: as before, only if nothing else
+    mism = real or ([] if fails else mism)
+    if mism and (pr["ok"] or fails):
+        # reported on its own (not only when the oracle is silent: a known finding of the oracle must not
+        # hide a model that no longer describes the code)
         ctx.violation("model/implementation correspondence broken: " + json.dumps(mism[0], ensure_ascii=False)[:400],
-                      dict(mismatches=mism[:10]), no_input=True)
-    if fails and (mism or not pr["ok"]):
-        ctx.notes.append(f"also: proofs ok={pr['ok']} correspondence mismatches={len(mism)}"
-                         + (": " + json.dumps(mism[0], ensure_ascii=False)[:300] if mism else ""))
+                      dict(mismatches=mism[:10]), key="model-implementation-correspondence", no_input=True)
+    if fails and not pr["ok"]:
+        ctx.notes.append(f"also: proofs ok={pr['ok']}: {pr['failed'][:300]}")
 
 
 def replay(ctx, payload):
@@ -683,6 +832,7 @@ def replay(ctx, payload):
         p = {k: r["case"][k] for k in ("ink", "story", "story_file") if k in r["case"]}
         p["id"] = r.get("program", "replay")
         p["seed"] = r["case"].get("seed", 11)
+        p["probe"] = any(op == ["EVAL", PROBE] for op in r["case"].get("script", []))
         h = dict(prog=p, ops=r["history"])
         res = vlib.run_inkdrive([base_case(p, "j", [], want_json=True)], exe)
         try:
